@@ -67,7 +67,7 @@ const perClassCap = 2
 
 func run(c *core.Child) {
 	k := &ck{c: c, reported: map[string]int{}}
-	debug.SetGCPercent(400) // many tiny short-lived allocations per input; the live heap is small
+	debug.SetGCPercent(400)                              // many tiny short-lived allocations per input; the live heap is small
 	if p := os.Getenv("VERIF_C03_CPUPROFILE"); p != "" { // development aid
 		if f, err := os.Create(fmt.Sprintf("%s.%d", p, c.Batch)); err == nil {
 			pprof.StartCPUProfile(f)
